@@ -75,7 +75,7 @@ def meta(tier):
     return {
         'functions': loader.functions_encoded(fns),
         'bounds': '1..3 modes (thorough 4) with sizes 1..3 (thorough 5), rectangular; every rank profile <= 3 (<= 2 for 3+ modes); 0..3 leading batch dims; '
-                  'both initialisers; float64 and float32 tags; weights = fresh symbols scaled by the initialiser constant (any weight value), bias and input symbolic',
+                  'both initialisers; float64 and float32 tags; weights = fresh symbols scaled by the initialiser constant (any weight value), bias and input symbolic; deep copies; constructor arguments by position',
         'outside': 'IEEE rounding; the gradient clause is decided under C15 (autograd model); sizes > 5',
         'assumptions': ['symtorch models torch incl. nn.Module parameter registration (validated per run against real torch)',
                         'torch.randn = fresh unconstrained symbols', 'z3 sat/unsat verdicts; unknown counted inconclusive'],
